@@ -161,13 +161,14 @@ def derived_counts(eng: Engine, ctx: Ctx, rid: str) -> int:
             ctx.bad(rid, f.qualname, f"store of {cnt}", expected=f"setattr(self, {cnt!r}, popcount(bits of {src}))", found=f"{len(cnt_store)} store(s)", **loc)
             continue
         stored_val = val_store[0].term[3][2]
-        ok = _is_popcount(cnt_store[0].term[3][2], stored_val) and not cnt_store[0].guards
+        base_guards = val_store[0].guards  # an explicit in-bounds guard may dominate the whole tail of the routine
+        ok = _is_popcount(cnt_store[0].term[3][2], stored_val) and cnt_store[0].guards == base_guards
         ctx.check(ok, rid, f.qualname, f"{cnt} = popcount({src})", expected=f"population count of the value stored as {src}", found=show(cnt_store[0].term[3][2])[:120]
                   + (f" under {guard_text(cnt_store[0].guards)}" if cnt_store[0].guards else ""), **loc)
         calls = [e for e in se.effects if e.kind == "call" and is_self_call(e.term, mb.name)]
         want_call = src == facts["derived_counters"].get(eng.tables.const.get("NCELL", "NCell"))
         if want_call:
-            ctx.check(len(calls) == 1 and calls[0].seq > cnt_store[0].seq and not calls[0].guards, rid, f.qualname, "map builder invoked after the cell count is stored",
+            ctx.check(len(calls) == 1 and calls[0].seq > cnt_store[0].seq and calls[0].guards == base_guards, rid, f.qualname, "map builder invoked after the cell count is stored",
                       expected="one unconditional call after the store", found=f"{len(calls)} call(s)", **loc)
         else:
             ctx.check(not calls, rid, f.qualname, f"map builder not invoked at {src}", expected="no call", found=f"{len(calls)} call(s)", **loc)
